@@ -38,7 +38,7 @@ ASSUMPTIONS = [
     "solve), not scaled by the condition number; the independent re-solve comparison is scaled by it",
 ]
 REQUIRED = {"type:exp_spline": 30, "type:buck4_spline": 30, "route:text": 50, "route:as.buck4": 15,
-            "integer_breakpoints": 15}
+            "integer_breakpoints": 15, "custom_end_potential": 10, "companion_entry": 60, "detach_at_origin": 8}
 TOL = 1e-9
 
 
@@ -47,7 +47,8 @@ def _case(draw):
     kind = draw(st.sampled_from(["exp_spline", "buck4_spline", "as.buck4"]))
     if kind == "as.buck4":
         p = list(draw(gen.form_params("buck4")))
-        return {"kind": kind, "p": p, "extra_r": draw(st.lists(gen.fl(0.05, 6.0), min_size=2, max_size=4))}
+        return {"kind": kind, "p": p, "extra_r": draw(st.lists(gen.fl(0.05, 6.0), min_size=2, max_size=4)),
+                "companion": draw(st.sampled_from([0, 1, 1, 2]))}
     a = draw(gen.form_leaf(gen.SMOOTH))
     b = draw(gen.form_leaf(gen.SMOOTH))
     ints = draw(st.integers(0, 3)) == 0
@@ -56,16 +57,52 @@ def _case(draw):
     else:
         detach = round(draw(gen.fl(0.3, 2.0)), 3)
         attach = round(detach + draw(gen.fl(0.3, 2.5)), 3)
-    c = {"kind": kind, "a": a, "b": b, "detach": detach, "attach": attach,
+    origin = False
+    if not ints and draw(st.integers(0, 7)) == 0:
+        # detachment point exactly at the origin, start potential regular there and defined from below 0
+        origin = True
+        a = draw(gen.form_leaf(["bornmayer", "morse", "polynomial", "constant"]))
+        detach = draw(st.sampled_from([0, 0.0]))
+        attach = round(draw(gen.fl(0.3, 2.5)), 3)
+    c = {"kind": kind, "a": a, "b": b, "detach": detach, "attach": attach, "origin": origin,
          "extra_r": draw(st.lists(gen.fl(0.05, 6.0), min_size=2, max_size=4)),
-         "m1": draw(st.sampled_from([">", ">="])), "m2": draw(st.sampled_from([">", ">="]))}
+         "m1": draw(st.sampled_from([">", ">="])), "m2": draw(st.sampled_from([">", ">="])),
+         "companion": draw(st.sampled_from([0, 1, 1, 2]))}
     if kind == "buck4_spline":
         c["rmin"] = rmin_i if ints else round(detach + (attach - detach) * draw(gen.fl(0.15, 0.85)), 4)
     return c
 
 
+def _v(n):
+    return {"o": "var", "n": n}
+
+
+# custom (formula) potentials: no analytic derivatives, the library differentiates them numerically
+CUSTOM_ENDS = [
+    {"name": "invsq", "params": ["r", "a"], "expr": {"o": "/", "a": _v("a"), "b": {"o": "^", "a": _v("r"), "p": 2}}},
+    {"name": "expdec", "params": ["r", "a", "w"], "expr": {"o": "*", "a": _v("a"), "b": {"o": "call", "f": "exp", "args": [
+        {"o": "neg", "a": {"o": "/", "a": _v("r"), "b": _v("w")}}]}}},
+    {"name": "disp6", "params": ["r", "c"], "expr": {"o": "neg", "a": {"o": "/", "a": _v("c"), "b": {"o": "^", "a": _v("r"), "p": 6}}}},
+]
+
+
+@st.composite
+def _custom_end_case(draw):
+    """spline() in a potable file whose start or end potential (or both) is a [Potential-Form] formula"""
+    c = draw(_case().filter(lambda c_: c_["kind"] != "as.buck4" and not c_.get("origin")))
+    for side in draw(st.sampled_from([["b"], ["a"], ["a", "b"]])):
+        f = draw(st.sampled_from(CUSTOM_ENDS))
+        c[side] = {"k": "custom", "name": f["name"], "p": [draw(gen.fl(0.5, 40.0)) for _ in f["params"][1:]]}
+    c["custom_end"] = True
+    return c
+
+
 def strategy(tier):
     return _case()
+
+
+def strata(tier):
+    return [("built-in end potentials", _case(), 9), ("formula end potentials", _custom_end_case(), 1)]
 
 
 def budget(tier):
@@ -81,10 +118,12 @@ def validate(case):
             return 0 < rd < rm < ra and rho > 0 and ra - rd >= 0.25
         from vlib import forms as F
         for nd in (case["a"], case["b"]):
+            if nd.get("k") == "custom":
+                continue
             ar = F.ARITY[nd["name"]]
             if (ar is not None and len(nd["p"]) != ar) or (ar is None and not nd["p"]):
                 return False
-        ok = 0.25 <= case["detach"] and case["attach"] - case["detach"] >= 0.25
+        ok = (0.25 <= case["detach"] or (case.get("origin") and case["detach"] == 0)) and case["attach"] - case["detach"] >= 0.25
         if case["kind"] == "buck4_spline":
             f = (case["rmin"] - case["detach"]) / (case["attach"] - case["detach"])
             ok = ok and 0.1 <= f <= 0.9
@@ -101,8 +140,9 @@ def _node(case):
             {"m": ">", "s": rd, "body": {"k": "splinekw", "name": "buck4_spline", "p": [rm]}},
             {"m": ">", "s": ra, "body": {"k": "form", "name": "buck", "p": [0, 1, C]}}]}]}
     kw = {"k": "splinekw", "name": case["kind"], "p": ([case["rmin"]] if case["kind"] == "buck4_spline" else [])}
+    first = {"m": ">", "s": -1.0, "body": case["a"]} if case.get("origin") else {"m": None, "s": None, "body": case["a"]}
     return {"k": "mod", "m": "spline", "args": [{"ranges": [
-        {"m": None, "s": None, "body": case["a"]},
+        first,
         {"m": case["m1"], "s": case["detach"], "body": kw},
         {"m": case["m2"], "s": case["attach"], "body": case["b"]}]}]}
 
@@ -110,26 +150,103 @@ def _node(case):
 def _polyterms(co, x, d, span=None):
     """(value, scale) of the d-th derivative of sum co[k] x^k; scale = sum of |terms|, plus
     (with span) the value-row scale expressed in units of the d-th derivative: the row-wise
-    backward error of the linear solve is relative to the whole coefficient vector"""
-    v = 0.0
-    s = 0.0
-    s0 = 0.0
-    for k, c in enumerate(co):
-        s0 += abs(c * x ** k)
-        if k < d:
-            continue
-        f = 1.0
-        for i in range(d):
-            f *= (k - i)
-        t = f * c * x ** (k - d)
-        v += t
-        s += abs(t)
+    backward error of the linear solve is relative to the whole coefficient vector.  At (or within a thousandth of
+    the interval of) x = 0 all but one term of every row vanish and say nothing about the size of the coefficient
+    vector: the scale is then taken at the other end of the interval."""
+    def at(xx):
+        v = 0.0
+        s = 0.0
+        s0 = 0.0
+        for k, c in enumerate(co):
+            s0 += abs(c * xx ** k)
+            if k < d:
+                continue
+            f = 1.0
+            for i in range(d):
+                f *= (k - i)
+            t = f * c * xx ** (k - d)
+            v += t
+            s += abs(t)
+        return v, s, s0
+    v, s, s0 = at(x)
+    if span is not None and abs(x) <= 1e-3 * span:
+        _, s, s0 = at(span)
+        if d > 0:
+            s += s0 / span ** d
+        return v, s
     if span is not None and d > 0:
         s += s0 / min(span, abs(x)) ** d
     return v, s
 
 
+def _check_custom_end(case):
+    """potable route only; the joins are checked against the true derivatives of the end potentials with the
+    admissible error of the documented numerical fallback (first derivative ~1e-9, second ~1e-3 relative)"""
+    v, cls = [], ["custom_end_potential"]
+    node = _node(case)
+    rgs = node["args"][0]["ranges"]
+    detach, attach = rgs[1]["s"], rgs[2]["s"]
+    kwname = rgs[1]["body"]["name"]
+    cls.append("type:" + kwname)
+    env = {"custom": CUSTOM_ENDS, "table": []}
+    ref = model.Ref(env)
+    pd = {"ranges": [{"m": None, "s": None, "body": node}]}
+    a_pd = {"ranges": [{"m": None, "s": None, "body": rgs[0]["body"]}]}
+    b_pd = {"ranges": [{"m": None, "s": None, "body": rgs[2]["body"]}]}
+    try:
+        ja, _ = model.evaluate(ref, a_pd, detach, order=2)
+        jb, _ = model.evaluate(ref, b_pd, attach, order=2)
+        parts = ref.spline_parts(node)
+    except Exception:
+        return {"v": [], "cls": cls, "nt": False, "skip": True}
+    if not all(math.isfinite(c.v) and abs(c.v) < 1e12 for c in ja.c + jb.c) or not parts[5] < 1e11:
+        return {"v": [], "cls": cls, "nt": False, "skip": True}
+    co_ref = parts[3]
+    for x in (detach, attach):
+        pieces = [co_ref] if parts[0] == "exp" else [co_ref[:6], co_ref[6:]]
+        for cs in pieces:
+            if sum(abs(c * x ** k) for k, c in enumerate(cs)) > 1e6 * (1.0 if parts[0] == "exp" else max(abs(ja.v), abs(jb.v), 1e-300)):
+                return {"v": [], "cls": cls + ["ill_conditioned"], "nt": False, "skip": True}
+    m = {"tabulation": {"target": "LAMMPS", "nr": 5, "cutoff": 2.0}, "env": env,
+         "pair": [("A", "B", pd), ("A", "A", a_pd), ("B", "B", b_pd)]}
+    text = render.model_text(m)
+    try:
+        fns = libroute.functions(libroute.read_text(text))
+        f, start, end = fns["pair:A-B"], fns["pair:A-A"], fns["pair:B-B"]
+        cls.append("route:text")
+    except Exception as e:
+        return {"v": [("text:build:exception:%s@%s" % (type(e).__name__, libroute.innermost_atsim_frame(e)), "%r\n%s" % (e, text))],
+                "cls": cls, "nt": False}
+    nx = math.nextafter
+    span = attach - detach
+    try:
+        for r in [detach * 0.5, detach * 0.9, detach, attach, attach * 1.2, attach + 2.0]:
+            want = start(r) if r <= detach else end(r)
+            if f(r) != want:
+                v.append(("custom_end:outside", "r=%r: %r, %s potential gives %r\n%s" % (r, f(r), "start" if r <= detach else "end", want, text)))
+                break
+        for x, inside, jet, nm in ((detach, nx(detach, 9), ja, "detach"), (attach, nx(attach, 0), jb, "attach")):
+            cs = co_ref if parts[0] == "exp" else (co_ref[:6] if nm == "detach" else co_ref[6:])
+            for d, fn in enumerate((f, f.deriv, f.deriv2)):
+                got = fn(inside)
+                want = jet.d(d)
+                _, sc = _polyterms(cs, x, d, span)
+                if parts[0] == "exp":
+                    sc = (abs(jet.v) + abs(parts[4])) * max(sc, 1.0) + abs(want.v)
+                tol = 1e-7 * (sc + abs(want.v)) + 4.0 * want.u + 256 * EPS * want.e + 1e-300
+                # one ulp inside the join the interior function has moved by less than that
+                if not abs(got - want.v) <= tol:
+                    v.append(("custom_end:join:%s:d%d" % (nm, d), "%s at %s=%r (formula end potential, numerical derivatives): "
+                              "spline d%d just inside = %r, end potential has %r (tolerance %.3g)\n%s" % (
+                                  kwname, nm, x, d, got, want.v, tol, text)))
+    except Exception as e:
+        v.append(("probe:exception:%s@%s" % (type(e).__name__, libroute.innermost_atsim_frame(e)), "%r\n%s" % (e, text)))
+    return {"v": v, "cls": cls, "nt": abs(ja.d(1).v) > 0 and abs(jb.d(1).v) > 0}
+
+
 def check_case(case):
+    if case.get("custom_end"):
+        return _check_custom_end(case)
     v, cls = [], []
     node = _node(case)
     rgs = node["args"][0]["ranges"]
@@ -137,6 +254,8 @@ def check_case(case):
     kwname = rgs[1]["body"]["name"]
     rmin = rgs[1]["body"]["p"][0] if rgs[1]["body"]["p"] else None
     cls.append("type:" + kwname)
+    if case.get("origin"):
+        cls.append("detach_at_origin")
     if all(isinstance(x, int) for x in (detach, attach)) and (rmin is None or isinstance(rmin, int)):
         cls.append("integer_breakpoints")
     ref = model.Ref()
@@ -192,8 +311,27 @@ def check_case(case):
     txt_models = {"spline()": pd}
     if case["kind"] == "as.buck4":
         txt_models["as.buck4"] = {"ranges": [{"m": None, "s": None, "body": {"k": "form", "name": "buck4", "p": case["p"]}}]}
+    import copy
+    comp_where = case.get("companion", 0)
     for nm, tpd in txt_models.items():
-        m = {"tabulation": {"target": "LAMMPS", "nr": 5, "cutoff": 2.0}, "pair": [("A", "B", tpd)]}
+        pairs = [("A", "B", tpd)]
+        if comp_where:
+            # a companion entry of the same section: the same definition with other numbers (first parameter of the
+            # start potential x 1.5, last parameter of the end potential x 0.5); each entry is its own function
+            comp = copy.deepcopy(tpd)
+            body = comp["ranges"][0]["body"]
+            if body["k"] == "form":
+                body["p"][0] = body["p"][0] * 1.5
+                body["p"][2] = body["p"][2] * 0.5
+            else:
+                ends = body["args"][0]["ranges"]
+                if ends[0]["body"]["p"]:
+                    ends[0]["body"]["p"][0] = ends[0]["body"]["p"][0] * 1.5
+                if ends[2]["body"]["p"]:
+                    ends[2]["body"]["p"][-1] = ends[2]["body"]["p"][-1] * 0.5
+            pairs = [("A", "A", comp)] + pairs if comp_where == 1 else pairs + [("A", "A", comp)]
+            cls.append("companion_entry")
+        m = {"tabulation": {"target": "LAMMPS", "nr": 5, "cutoff": 2.0}, "pair": pairs}
         t = render.model_text(m)
         try:
             routes["text:" + nm] = libroute.functions(libroute.read_text(t))["pair:A-B"]
